@@ -5,9 +5,9 @@ CONSTANTS Names <- NamesMB Depth = 3 Vals <- ValsX Sep = 46 Design = "list" Base
   Routes <- RAll Cfgs <- CfgT SingleKinds <- SKBoth PrePaths <- PreC
   LoadKinds <- LoadQ TwoFiles = FALSE EnvCalls <- EnvQ ArgCalls <- ArgsQ ClearLists <- ClearQ
   MsgSets <- MSetQ MsgGets <- MGetQ NodeBases <- BasesQ FputSeps <- None
-  MaxOps = 3 MaxArr = 3 SinglesFirst = FALSE Observe = TRUE
+  MaxOps = 3 MaxArr = 3 SingleWhen = "any" QuoteSet <- AllQuotes Observe = TRUE
 CONSTRAINT Bound
-VIEW ViewX
+VIEW ViewG
 ACTION_CONSTRAINT EmitX
 INVARIANTS Refines PrefixClosed
 PROPERTIES ArrivalProp SingleProp
